@@ -228,7 +228,9 @@ Definition nstep (w : nworld) (op : tree) : nworld * tree :=
   | TL [TN 119; TN id] =>
       on_nserver w (fun s => do t <- NServer.time_since_last_received s id;
                              Ok (s, TL [topt TB (user_data s id); topt t_addr (client_addr s id); topt TN t; tbool (is_client_connected s id)]))
-  | TL [TN 117; TB bytes] => (w, t_nres t_token (token_read bytes))
+  | TL [TN 117; TB bytes] =>
+      (* what was read, and what reading its re-serialisation gives *)
+      (w, t_nres (fun t => TL [t_token t; t_nres t_token (token_read (token_write t))]) (token_read bytes))
   | TL [TN 118; TN k; TN now; TB bytes] =>
       match token_read bytes with
       | Ok t =>
